@@ -660,4 +660,8 @@ def run(tier, seed):
         C.phase_proofs(res, PROP, THEOREMS)
     n = 69 if tier == "quick" else 1380
     phase(res, [seed * 100000 + i for i in range(n)])
+    if res.broken and not res.violations:
+        # a proof obligation or the correspondence no longer checks: look for a concrete failing history
+        phase(res, [seed * 100000 + 50000 + i for i in range(230)])
+        res.extra["search"] = "230 extra end-to-end scenarios (ghost oracle at every tip, byte comparison around aborted operations)"
     return res.finish()
